@@ -349,6 +349,9 @@ class Engine:
                 on_path(st)
             work.extend(path.alts)
         self.current_target = None
+        if (c.get("ensures") or c.get("cases")) and not c.get("noreturn") and complete > 0 \
+                and outcomes.get("normal", 0) == 0 and not unsupported:
+            unsupported.append("%s: no path returns normally, so no postcondition was checked (vacuous)" % qualname)
         return dict(obligations=obligations, paths=npaths, unsupported=unsupported, finfo=finfo,
                     complete_paths=complete, outcomes=outcomes)
 
